@@ -73,6 +73,9 @@ class Monitors:
     def reset_process(self, o):
         """a new process: nothing is handed out; the reports of interrupted runs are what the files hold"""
         self.out = {}
+        # the values a re-run carries are the ones the trial files hold (a report lost in the crash is lost)
+        for tid, t in o.trials.items():
+            self.startvals[tid] = canon_vals(t.hyperparameters.values)
         for tid in o._retry_queue:
             t = o.trials[tid]
             per = {}
@@ -358,6 +361,12 @@ def scenario(sseed, kind, mode, res, crash_at=None, second=None, maxlen=60):
                 for tid, t in o.trials.items():
                     if t.status == "RUNNING" and tid not in o._retry_queue:
                         raise Violation(pid, f"trial {tid} RUNNING after reload but not queued to run again")
+                    # a trial that was started but is not in the end order has not finished: it must be waiting to be run
+                    # again, whatever its file says (INVALID while waiting for a retry, RUNNING, ...) - otherwise it is
+                    # never issued again, never ends, and still uses up one unit of the budget
+                    if tid not in o.end_order and tid not in o._retry_queue:
+                        raise Violation(pid, f"after reload trial {tid} ({t.status}) is neither ended nor queued to be run again: it is lost "
+                                             f"(retry queue {o._retry_queue}, end order {o.end_order})", {"tag": "unfinished-not-queued"})
                 if set(o.start_order) != set(o.trials) or len(set(o.start_order)) != len(o.start_order):
                     raise Violation(pid, f"after reload trials {sorted(o.trials)} vs start_order {o.start_order}")
                 if o.max_trials and len(o.trials) > o.max_trials:
